@@ -385,6 +385,55 @@ def k7(F, R):
     R.floor("C17-K7", 10)
 
 
+def _finite_kernel_delegation(F, b):
+    """`array_all_finite` handing its whole slice to a math::util kernel whose per-element term is `x - x` (0 for a finite element, NaN
+    otherwise - kept as `nanzero(x)` by the symbolic evaluator) and whose result is compared with 0: a per-element test in disguise.
+    The lanes / tails / accumulators of that kernel are judged by K1..K6 like every other kernel."""
+    calls = [t for _bb, t in b.calls() if (t["callee"].get("resolved") or t["callee"].get("path", "")).startswith("math::util::")]
+    cands = [b] + [F.bodies.get(t["callee"].get("resolved") or t["callee"]["path"]) for t in calls]   # a new wrapper function is inlined into b
+    kern = None
+    nk = 0
+    for ub in cands:
+        if ub is None:
+            continue
+        for blk in ub.blocks:
+            for st in blk["stmts"]:
+                if st["k"] == "assign" and st["rv"]["k"] == "agg" and st["rv"].get("ak") == "adt":
+                    for k_ in kernels(F):
+                        if strip_generics(k_.parent.get("self_adt") or "") == strip_generics(st["rv"]["adt"]):
+                            kern = k_
+                            nk += 1
+    if nk != 1:
+        return None
+    if kern is None or not kern.hir:
+        return None
+    km = KernelModel(F, kern)
+    if km.problems or len(km.loops) != 3:
+        return None
+    for (ops, clo, node) in km.loops:
+        if clo is None or clo.get("k") != "Closure":
+            return None
+        ev = KN.Eval(outer_env=km.ev0.env)
+        ev.acc_ids = set(km.accs)
+        ev.racc_roots = dict(km.ev0.racc_roots)
+        lanes, err = KN.bind_params(ev, clo, [o for o, _p in ops])
+        if err:
+            return None
+        ev.exec(clo["body"])
+        upd = list(ev.acc.values()) + list(ev.racc.values())
+        if not upd:
+            return None
+        for p_ in upd:
+            nz = [a for a in KN.patoms(p_) if a[0] == "call" and a[1] == "nanzero"]
+            if not nz:
+                return None
+    fin = K.peel(km.final) if km.final is not None else None
+    if not (isinstance(fin, dict) and fin.get("k") == "Binary" and fin.get("op") == "==" and (K.num_lit(fin["b"]) == 0 or K.num_lit(fin["a"]) == 0)):
+        return None
+    return "delegates to the SIMD kernel %s: every element contributes x - x (0 iff finite, else NaN) and the total is compared with 0" % (
+        (kern.parent.get("self_adt") or kern.path).split("::")[-1])
+
+
 def k8(F, R):
     R.rule("C17-K8", "element loops of the CPU backend and of math::util iterate whole slices: none of %s occurs on a data path; f64::is_finite in a "
                      "boolean-valued Math method is evaluated per element inside the element closure, never on a reduction" % (BAD_ADAPTORS,))
@@ -425,7 +474,10 @@ def k8(F, R):
                             in_closure.append(y)
             k2 = "%s:per-element-predicate" % b.path
             reductions = [x["method"] for x in hir_walk(b.hir["value"]) if x.get("k") == "MethodCall" and x["method"] in ("sum", "product", "fold", "reduce", "max", "min")]
-            if fin and len(in_closure) == len(fin) and not reductions:
+            deleg = _finite_kernel_delegation(F, b) if not fin else None
+            if deleg:
+                R.ok("C17-K8", k2, site, deleg)
+            elif fin and len(in_closure) == len(fin) and not reductions:
                 R.ok("C17-K8", k2, site, "is_finite applied to each element")
             else:
                 R.bad("C17-K8", k2, site, "finiteness test is not per element: %d is_finite calls, %d of them on a closure element, reductions %s "
